@@ -233,7 +233,7 @@ def decide(prop, mod, results, tier, seed, wall):
                 else:
                     # the contract names a finding that known_findings.json does not list: that is a violation
                     os.makedirs(replays_dir, exist_ok=True)
-                    path_ = os.path.join(replays_dir, f"{o['name']}.{h['id']}.json")
+                    path_ = os.path.join(replays_dir, f"{o['name'].replace('/', '_')}.{h['id']}.json")
                     with open(path_, "w") as fh_:
                         json.dump({"property": prop, "obligation": o["name"], "model": h.get("model"),
                                    "note": f"violates the obligation inside witness {h['id']}, which known_findings.json does not list"}, fh_, indent=1, default=str)
@@ -274,7 +274,7 @@ def decide(prop, mod, results, tier, seed, wall):
                     lines.append(f"KNOWN-FINDING: property={prop} {kf['what']} [{kf['id']}; obligation {o['name']}]")
                     continue
                 os.makedirs(replays_dir, exist_ok=True)
-                path = os.path.join(replays_dir, f"{o['name']}.json")
+                path = os.path.join(replays_dir, f"{o['name'].replace('/', '_')}.json")
                 srcs = [f for f in r.get("functions", [])]
                 with open(path, "w") as fh:
                     json.dump({"property": prop, "obligation": o["name"], "kind": o.get("kind"), "task": r["task"],
